@@ -241,6 +241,68 @@ def two_leg_case(ctx, s, idx):
     return err
 
 
+class _CtxSDE(torch.nn.Module):
+    """A smooth SDE whose drift also depends on a context tensor that is NOT a leaf of the autograd graph (computed from
+    a leaf `raw` outside the SDE, as the output of an encoder would be) and is not an nn.Parameter."""
+
+    def __init__(self, inner, ctx):
+        super().__init__()
+        self.inner = inner
+        self.ctx = ctx
+        self.noise_type, self.sde_type = inner.noise_type, inner.sde_type
+
+    def f(self, t, y):
+        return self.inner.f(t, y) + torch.tanh(self.ctx) * y
+
+    def g(self, t, y):
+        return self.inner.g(t, y)
+
+
+def nonleaf_case(ctx, s, idx):
+    """adjoint_params given explicitly and containing a non-leaf tensor: the gradient w.r.t. what it was computed from
+    (and w.r.t. the module parameters and y0) must equal backprop through sdeint."""
+    noise, b, d, m, hden, outs = s["noise"], s["batch"], s["d"], s["m"], s["hden"], s["outs"]
+    if hden & (hden - 1):
+        return None
+    dt = 1.0 / hden
+    n = outs[-1]
+    gen = torch.Generator().manual_seed((ctx.seed * 5003 + idx * 7927 + 13) % (2 ** 31))
+    inner = H.SmoothSDE(noise, d, m, seed=ctx.seed * 23 + idx)
+    raw = torch.randn(d, generator=gen, dtype=F64).requires_grad_()
+    y0 = torch.randn(b, d, generator=gen, dtype=F64).requires_grad_()
+    ts = torch.tensor([o * dt for o in outs], dtype=F64)
+    incs = torch.randn(n, b, m, generator=gen, dtype=F64) * math.sqrt(dt)
+    w = H.weights_tensor(gen, (len(outs), b, d))
+    key = dict(part="nonleaf_params", noise=noise, grid="dyadic", clause="adjoint_vs_backprop")
+    grads = []
+    try:
+        for adjoint in (True, False):
+            c = raw * 1.5 + 0.25                      # non-leaf, requires grad
+            sde = _CtxSDE(inner, c)
+            params = list(inner.parameters())
+            base = H.GridBrownian(0.0, dt, incs)
+            with H.quiet():
+                if adjoint:
+                    ys = torchsde.sdeint_adjoint(sde, y0, ts, bm=base, method=PAIR["method"], adjoint_method=PAIR["adjoint_method"],
+                                                 dt=dt, adjoint_params=tuple(params) + (c,))
+                else:
+                    ys = torchsde.sdeint(sde, y0, ts, bm=base, method="reversible_heun", dt=dt)
+            grads.append(H.grads_of((ys * w).sum(), [y0, raw] + params))
+    except Exception as e:
+        H.violation_once(ctx, dict(key, clause="valid_call_raised"),
+                         f"sdeint_adjoint with an explicit non-leaf adjoint parameter raised {type(e).__name__}: {str(e)[:200]}",
+                         replay=dict(s, seed=ctx.seed, idx=idx))
+        return None
+    err = max(H.rel_err(a, c_) for a, c_ in zip(*grads))
+    ctx.case(("nonleaf", noise, b, d, m, hden, tuple(outs)), sample=dict(key, outs=outs, err=err))
+    if err > TOL_PROP or not math.isfinite(err):
+        H.violation_once(ctx, key, f"explicit adjoint_params containing a non-leaf tensor: adjoint gradient (w.r.t. y0, the leaf "
+                                   f"the tensor was computed from, module parameters) differs from sdeint backprop by relative "
+                                   f"{err:.3e} > 1e-9; batch={b} d={d} m={m} dt=1/{hden} ts=dt*{outs}",
+                         replay=dict(s, seed=ctx.seed, idx=idx))
+    return err
+
+
 def pair_saving(ctx):
     """ExtrasOnlyForPair on the real code (observation aid: saved tensors of the autograd node)."""
     sde = H.SmoothSDE("diagonal", 2, 2, seed=1)
@@ -298,6 +360,10 @@ def run(ctx):
     # ---- (2b) the adjoint solve in two legs, continued from the returned extra solver state ----
     two = [e for e in (two_leg_case(ctx, s, idx) for idx, s in enumerate(smooth) if idx % (1 if ctx.tier != "quick" else 2) == 0)
            if e is not None]
+    nl = [e for e in (nonleaf_case(ctx, s, idx) for idx, s in enumerate(smooth) if idx % (1 if ctx.tier != "quick" else 3) == 0)
+          if e is not None]
+    ctx.notes["nonleaf_adjoint_param_cases"] = len(nl)
+    ctx.notes["nonleaf_worst_rel_err"] = max(nl) if nl else None
     ctx.notes["two_leg_cases"] = len(two)
     ctx.notes["two_leg_worst_rel_err"] = max(two) if two else None
     # ---- (3) ----
